@@ -77,9 +77,9 @@ def public_entries(world):
                                                              '__getitem__', '__len__',
                                                              '__iter__'):
                             continue
-                        if nm in ('plot', 'as_artist', 'to_patches', 'imshow', 'imshow_map',
-                                  'plot_error', 'plot_meshes'):
-                            continue   # plotting is out of scope (matplotlib)
+                        # plotting methods are in scope for what they do to the object they
+                        # are called on and to their other arguments; the matplotlib axes they
+                        # draw on is the declared target of the call (DECLARED_FRAMES)
                         out.append((fi, cls))
     return out
 
@@ -250,6 +250,34 @@ def ownership_obligations(world, prop='C08'):
         if not bad:
             obs.append(Obligation(oid, prop, 'effects', DISCHARGED, backend='effects',
                                   functions=[f'{gi.target}#{fhash}'], text=text))
+        # every catalog-returning selector builds its result through __getitem__ (or a deep
+        # copy): none of them hands out the object itself or a shallow copy of it, which would
+        # share every list and array with the parent
+        sel = ('__getitem__', 'get_label', 'get_labels', 'get_id', 'get_ids', 'copy')
+        sid = f'effects:{rel}::{cname}.selectors/no-shallow-copy-or-self'
+        stext = (f'{cname}: {", ".join(sel)} never return `self` or `copy(self)` (a shallow copy '
+                 'shares its lists and arrays with the parent)')
+        offenders = []
+        for k in cls.mro(world):
+            for fi in k.methods.values():
+                if fi.name not in sel:
+                    continue
+                for n in ast.walk(fi.node):
+                    if isinstance(n, ast.Return) and isinstance(n.value, ast.Name) \
+                            and n.value.id == 'self':
+                        offenders.append((fi.qualname, n.lineno, 'return self'))
+                    if isinstance(n, ast.Call) and _dotted(n.func) in ('copy', 'copy.copy') \
+                            and n.args and isinstance(n.args[0], ast.Name) and n.args[0].id == 'self':
+                        offenders.append((fi.qualname, n.lineno, 'copy(self)'))
+        if offenders:
+            q, ln, what = offenders[0]
+            obs.append(Obligation(sid, prop, 'effects', REFUTED, backend='effects',
+                                  functions=[f'{rel}::{q}'], text=stext,
+                                  detail=f'{q} (line {ln}): {what}',
+                                  model={'offenders': [list(o) for o in offenders]}))
+        else:
+            obs.append(Obligation(sid, prop, 'effects', DISCHARGED, backend='effects',
+                                  functions=[gi.target], text=stext))
         for a, lst in bad:
             who = sorted({q for q, _ in lst})
             obs.append(Obligation(f'{oid}:{a}', prop, 'effects', REFUTED, backend='effects',
